@@ -678,6 +678,15 @@ func (fr *Frame) loopEnv(st *State, li *loopInfo) *SpecEnv {
 			}
 		}
 	}
+	// enclosing range loops: _i<ord> is the index of their current element
+	for _, outer := range fr.loops {
+		if outer == li || !outer.body[li.header] {
+			continue
+		}
+		if k := fr.iterCount(st, outer); k != "" {
+			env.vars[fmt.Sprintf("_i%d", outer.ord)] = mkInt(types.Typ[types.Int], tSub(k, "1"))
+		}
+	}
 	return env
 }
 
@@ -792,7 +801,17 @@ func (fr *Frame) lookupLocal(st *State, name string, pos token.Pos) (*Val, bool)
 			if v, ok := st.cells[c]; ok {
 				return v, true
 			}
-			return nil, false
+			// not yet spilled in this (earlier) state: parameters fall back to
+			// their entry values
+			isParam := false
+			for i, p := range f.fn.Params {
+				if p.Name() == name && i < len(f.args) && best.Pos() == p.Pos() {
+					isParam = true
+				}
+			}
+			if !isParam {
+				return nil, false
+			}
 		}
 		for fv, v := range f.freeVars {
 			if fv.Name() == name {
